@@ -150,7 +150,7 @@ def items_of(case, n):
 def impl_choice(case):
     """run the real RandomChoice; returns (impl result, cdf or None)"""
     from skyllh.core.random import RandomChoice
-    p = np.array([float.fromhex(x) for x in case['p']], dtype=np.float64)
+    p = np.array([hex_or_nan(x) for x in case['p']], dtype=np.float64)
     if case['dtype'] == 'f4':
         p = p.astype(np.float32)
     items = np.array(items_of(case, len(p)), dtype=np.int64)
@@ -167,7 +167,7 @@ def impl_choice(case):
 
 
 def model_line(case):
-    p = [float.fromhex(x) for x in case['p']]
+    p = [hex_or_nan(x) for x in case['p']]
     u = [float.fromhex(x) for x in case['u']]
     items = items_of(case, len(p))
     # argsort oracle: any sorting permutation is admissible (C08_choice_unsort);
@@ -235,6 +235,9 @@ def malformed_choice_cases(rng):
     out.append(mk([0.5, 0.5 + 1e-3], [0.3], dtype='f4', note='f4-sum-off-1e-3'))
     out.append(mk([0.5, 0.5 + 1e-5], [0.3, 0.9], dtype='f4', note='f4-sum-within-atol'))
     out.append(mk([0.5, 0.5 + 1e-10], [0.3, 0.9], note='f8-sum-within-atol'))
+    # NaN is not rejected by _assert_probabilities (both comparisons are False): model and code must still agree
+    out.append(mk([0.0, float('nan'), 0.5], [0.3, 0.9, 0.0], note='nan'))
+    out.append(mk([0.25, 0.25, float('nan')], [0.1, 0.6], note='nan-last'))
     return out
 
 
@@ -780,18 +783,57 @@ def split_trial_logs(cfgd, log):
     return trials
 
 
-def run_trials(ctx):
+def expected_data_requests(c):
+    """the requests one trial after the other makes on `rss`, read off the documentation of the generators:
+    per dataset [poisson] random(n) [uniform(n)], then for the signal [poisson] random(n).  Every request consumes one
+    prescribed answer; only poisson uses it."""
+    ans = list(c['poisson_answers'])
+
+    def pop():
+        return ans.pop(0) if ans else None
+    trials = []
+    for _ in range(c['ntrials']):
+        reqs = []
+        for mean in c['bkg_means']:
+            if c['bkg_poisson']:
+                reqs.append(['poisson'])
+                n = pop()
+            else:
+                n = int(np.round(mean, 0))
+            if n is None:
+                return None
+            reqs.append(['random', n])
+            pop()
+            if c['scramble']:
+                reqs.append(['uniform', n])
+                pop()
+        if c['mean_n_sig'] != 0:
+            if c['sig_poisson']:
+                reqs.append(['poisson'])
+                n = pop()
+            else:
+                n = int(c['mean_n_sig'])
+            if n is None:
+                return None
+            reqs.append(['random', n])
+            pop()
+        trials.append(reqs)
+    return trials
+
+
+def run_trials(ctx, only=None):
     rng = ctx.rng
-    n_cfg = ctx.budget(40, 1500)
-    cfgs = []
+    n_cfg = ctx.budget(40, 1500) if only is None else 0
+    cfgs = list(only or [])
     # corpus: three restarts, default minimiser service; no restarts; limit 0
     base = {'kind': 'trial', 'seed': 5, 'ntrials': 2, 'maxrep': 10, 'nfloat': 2,
             'scripts': [[(0, 1), (0, 1), (0, 1), (1, 1)], [(1, 1)]], 'bkg_means': [5.0, 2.0], 'bkg_poisson': True,
             'scramble': True, 'mean_n_sig': 3.0, 'sig_poisson': True, 'poisson_answers': [4, 0, 2, 7, 1, 3, 5, 2, 2, 2, 6, 1, 0, 3, 8, 2, 5, 1, 1, 4, 9, 0, 2, 3, 3, 7, 1, 2, 0, 5, 4, 4],
             'explicit_minimizer_rss': False}
-    cfgs.append(base)
-    cfgs.append(dict(base, seed=0, maxrep=0, scripts=[[(0, 1)], [(0, 1)]]))
-    cfgs.append(dict(base, explicit_minimizer_rss=True, scripts=[[(0, 1), (1, 1)], [(0, 1), (0, 1), (1, 0)]]))
+    if only is None:
+        cfgs.append(base)
+        cfgs.append(dict(base, seed=0, maxrep=0, scripts=[[(0, 1)], [(0, 1)]]))
+        cfgs.append(dict(base, explicit_minimizer_rss=True, scripts=[[(0, 1), (1, 1)], [(0, 1), (0, 1), (1, 0)]]))
     while len(cfgs) < n_cfg:
         cfgs.append(gen_trial_cfg(rng, rng.choice([1, 2, 3])))
     exprs, impls = [], []
@@ -820,6 +862,11 @@ def run_trials(ctx):
                               case=c, impl=tr['min'])
             if outs[t][0] == 'Ok' and outs[t][2] != c['seed']:
                 ctx.violation('Analysis.do_trial', 'recorded-seed', 'recorded seed differs from rss.seed', case=c, impl=outs[t])
+        want = expected_data_requests(c)
+        if want is not None and [[req_canon(e) for e in tr['data']] for tr in trials] != want:
+            ctx.violation('Analysis.generate_pseudo_data', 'data-request-order', 'requests on rss differ from the documented order '
+                          '[poisson] choice [scramble] per dataset, then [poisson] choice for the signal', case=c,
+                          impl=[[req_canon(e) for e in tr['data']] for tr in trials], model=want)
         impls.append((c, outs, trials))
         exprs.append(trial_model_expr(c))
     # predicate 2 (non-interference, observed): same configuration, different minimiser scripts -> identical data requests
@@ -1013,6 +1060,13 @@ def replay(ctx, rp):
             ctx.corr_cases += 1
             if list(v) != impl:
                 ctx.disagree('extend_trial_data_file.seed', c, impl, list(v))
+    elif kind == 'trial':
+        c['scripts'] = [[tuple(x) for x in sc] for sc in c['scripts']]
+        run_trials(ctx, only=[c])
+    elif kind == 'workers':
+        run_workers(ctx)
+    elif kind == 'static':
+        static_scan(ctx)
     else:
         ctx.notes.append('replay file has no directly replayable input: re-running the full check')
         run(ctx)
